@@ -1,6 +1,7 @@
 package sim
 
 import (
+	"net/textproto"
 	"context"
 	"errors"
 	"fmt"
@@ -177,11 +178,40 @@ func (c *simCreds) GetRequestMetadata(ctx context.Context, uri ...string) (map[s
 	}
 	out := map[string]string{}
 	for _, kv := range c.spec.MD {
-		out[kv.K] = string(kv.V)
+		k := kv.K
+		if c.spec.Canon {
+			// "Authorization", as most credentials spell it
+			k = textproto.CanonicalMIMEHeaderKey(k)
+		}
+		out[k] = string(kv.V)
 	}
 	return out, nil
 }
 func (c *simCreds) RequireTransportSecurity() bool { return c.spec.Secure }
+
+// credsInContext: an outgoing metadata value in ctx that the per-RPC
+// credentials of r supplied and the caller did not attach ("" if none).
+func credsInContext(ctx context.Context, r *RPC) string {
+	md, ok := metadata.FromOutgoingContext(ctx)
+	if !ok {
+		return ""
+	}
+	own := kvToMD(r.OutMD)
+	for _, kv := range r.Creds.MD {
+		for _, x := range md.Get(kv.K) {
+			isOwn := false
+			for _, o := range own.Get(kv.K) {
+				if o == x {
+					isOwn = true
+				}
+			}
+			if x == string(kv.V) && !isOwn {
+				return fmt.Sprintf("%s=%q", kv.K, x)
+			}
+		}
+	}
+	return ""
+}
 
 var _ credentials.PerRPCCredentials = (*simCreds)(nil)
 
@@ -449,25 +479,11 @@ func (s *Sim) clientMain(rs *rpcState, g int, ops []Op) {
 			})
 			if err == nil && st != nil && r.Creds != nil {
 				// anything in the stream's context that only the credentials supplied?
-				if md, ok := metadata.FromOutgoingContext(st.Context()); ok {
-					own := kvToMD(r.OutMD)
-					for _, kv := range r.Creds.MD {
-						vals := md.Get(kv.K)
-						for _, x := range vals {
-							isOwn := false
-							for _, o := range own.Get(kv.K) {
-								if o == x {
-									isOwn = true
-								}
-							}
-							if x == string(kv.V) && !isOwn {
-								if ev.Flags == nil {
-									ev.Flags = map[string]string{}
-								}
-								ev.Flags["ctx-md-has-creds"] = fmt.Sprintf("%s=%q", kv.K, x)
-							}
-						}
+				if leak := credsInContext(st.Context(), r); leak != "" {
+					if ev.Flags == nil {
+						ev.Flags = map[string]string{}
 					}
+					ev.Flags["ctx-md-has-creds"] = leak
 				}
 			}
 			s.end(ev, err)
@@ -1047,6 +1063,13 @@ func (s *Sim) handlerEnter(rs *rpcState, ctx context.Context, via string) *Event
 				e.Flags["clientctx"] = "wrong"
 			default:
 				e.Flags["clientctx"] = "ok"
+			}
+			if cc != nil && rs.r.Creds != nil {
+				// the caller's context is the caller's: what the credentials
+				// contributed to the request is not in it
+				if leak := credsInContext(cc, rs.r); leak != "" {
+					e.Flags["clientctx-md-has-creds"] = leak
+				}
 			}
 		}
 		if ctx.Err() != nil {
